@@ -164,8 +164,15 @@ func Dial(addr string) (*Conn, error) {
 	return &Conn{C: c, Rd: bufio.NewReaderSize(c, 1<<16), Timeout: 30 * time.Second}, nil
 }
 
-// Close closes the connection.
-func (c *Conn) Close() error { return c.C.Close() }
+// Close closes the connection with a reset (SO_LINGER 0): every reply has been read by then, and a socket closed this
+// way does not sit in TIME_WAIT - drivers that open tens of thousands of connections per minute would otherwise run
+// the machine out of ephemeral ports.
+func (c *Conn) Close() error {
+	if tc, ok := c.C.(*net.TCPConn); ok {
+		tc.SetLinger(0)
+	}
+	return c.C.Close()
+}
 
 // Send writes one command without waiting for the reply.
 func (c *Conn) Send(args ...string) error {
